@@ -34,7 +34,7 @@ def main():
         os.makedirs(os.path.dirname(demo_dst), exist_ok=True)
         shutil.copy(demo_src, demo_dst)
         cmd = meta["demo_cmd"]
-        cmd = re.sub(r"/tmp/mut[234]?-[CW]\d+", wt, cmd)
+        cmd = re.sub(r"/tmp/mut[2345]?-[CW]\d+", wt, cmd)
         if "--offline" not in cmd and cmd.strip().startswith("cargo"):
             cmd += " --offline"
         rc, out = sh(cmd, wt)
